@@ -75,6 +75,7 @@ def make_design():
             back.top_emit(D["EvC"].hw(unit=D["Unit"].BACK), when=s["t1"])                      # site 3: ignores the context
             with m.If(~s["go"]):
                 back.emit(m, D["EvB"].hw(val=fs, kind=f[0]))                                   # site 4: default trigger
+            front.emit(m, D["EvA"].hw(tag=f, flag=f[1], lane=2), when=f)                       # site 5: multi-bit `when`
             return m
 
     return Dut()
@@ -102,6 +103,9 @@ def reference(history):
         if not go:
             raw.append((k, 4, [fs, f & 1]))
             dec.append(D["EvB"](val=fs, kind=D["Kind"](f & 1), note="n"))
+        if f != 0:          # `when` is "true" whenever the expression is non-zero
+            raw.append((k, 5, [f, (f >> 1) & 1]))
+            dec.append(D["EvA"](tag=f, flag=bool((f >> 1) & 1), lane=2))
     return raw, dec
 
 
